@@ -282,7 +282,7 @@ HARNESSES = {
         replay=dict(kind="vm_access")),
     "sha256_op": dict(props=["C12", "C05"], crates=CR, fn=sha256_op, params=dict(quick=dict(nwords=2), thorough=dict(nwords=3)), witnesses=["ok", "err"],
         bound=dict(quick="0..2 data words, byte_len any i64 (so every byte length 0..16 incl. non-multiples of 8); SHA-256 uninterpreted", thorough="0..3 data words"),
-        replay=dict(kind="crypto_roundtrip")),
+        replay=dict(kind="crypto_roundtrip", differential=True)),
     "predicate_exists": dict(props=["C12"], crates=CR, fn=predicate_exists, params=dict(quick=dict(smax=1, wmax=1), thorough=dict(smax=2, wmax=2)), witnesses=["ok"],
         bound=dict(quick="1..2 solutions, 0..1 slots of 0..1 words, symbolic addresses and hash words; SHA-256 uninterpreted (equal inputs give equal digests)", thorough="0..2 slots of 0..2 words"),
         replay=dict(kind="vm_pex")),
